@@ -25,7 +25,7 @@ type Case struct {
 
 func setup() {
 	c := ev.C()
-	c.Rule = "multi-session Modify histories over in-process streams: 1-3 SINGLE_PRIMARY sessions (RIB-ack or FIB-ack), batches of 1-8 model-aimed operations over all five tables (held operations that later resolve or fail, empty and unknown network instance names, operations from non-primary sessions, wrong stamps), hand-over of the primary role between sessions while operations are held, operation ids counted per session from 1 so they overlap across sessions; plus dependency graphs in disturbed arrival orders sent by one elected session (held chains, dependencies deleted while waited for, doomed held REPLACEs). plus hand-overs in flight: the cascade that installs 1-6 held operations is stopped (public post-change hook) at a drawn installation, another session takes over (higher id or tie, optionally programming an entry), the cascade is released. Oracle over the whole history per stream, collected up to a barrier after every request: no result for an id that was not sent on that stream; per id the result sequence is one of [FAILED], [RIB_PROGRAMMED], [RIB_PROGRAMMED,FIB_PROGRAMMED] (FIB only if negotiated, never first, never a verdict twice, never failure and success); an operation without result must be held in the model, or its stream ended, or its session lost the primary role; with FIB ack every RIB ack is followed by its FIB ack; plus the RIB relation model and held-set hook after every request. Non-trivial = a held operation resolved or failed later, or a hand-over happened with >=1 operation held, or a request contained an empty/unknown network instance; distinct by FNV-64 of the case JSON."
+	c.Rule = "multi-session Modify histories over in-process streams: 1-3 SINGLE_PRIMARY sessions (RIB-ack or FIB-ack), batches of 1-8 model-aimed operations over all five tables (held operations that later resolve or fail, empty and unknown network instance names, operations from non-primary sessions, wrong stamps), hand-over of the primary role between sessions while operations are held, operation ids counted per session from 1 so they overlap across sessions; plus dependency graphs in disturbed arrival orders sent by one elected session (held chains, dependencies deleted while waited for, doomed held REPLACEs). plus hand-overs in flight: the cascade that installs 1-6 held operations is stopped (public post-change hook) at a drawn installation, another session takes over (higher id or tie, optionally programming an entry), the cascade is released. Oracle over the whole history per stream, collected up to a barrier after every request: no result for an id that was not sent on that stream; per id the result sequence is one of [FAILED], [RIB_PROGRAMMED], [RIB_PROGRAMMED,FIB_PROGRAMMED] (FIB only if negotiated, never first, never a verdict twice, never failure and success); an operation without result must be held in the model, or its stream ended, or its session lost the primary role; with FIB ack every RIB ack is followed by its FIB ack; plus the RIB relation model and held-set hook after every request. Non-trivial = a held operation resolved or failed later, or a hand-over happened with >=1 operation held, or a request contained an empty/unknown network instance; distinct by FNV-64 of the case JSON. Later additions: held-backlog scope (255-4097 held operations, unrelated installs, single releases); non-first operation ids 0 and 2^61+1; clock steps."
 	c.Assumptions = []string{"on fail-over the previous primary's held operations are dropped (gribi.proto: the server SHOULD stop processing them and MUST NOT answer them to the acquiring primary)"}
 }
 
